@@ -1,8 +1,8 @@
 SPECIFICATION Spec
-CONSTANTS NClients = 2
-FuturesPerClient = 1
+CONSTANTS NClients = 1
+FuturesPerClient = 3
 MaxThreads = 2
-Cap = 1
+Cap = 2
 AllowRetire = TRUE
 FixRetire = TRUE
 INVARIANTS AtMostOnce JoinAfterDone QueueOK
